@@ -4,73 +4,16 @@
 
   Floats (DESIGN §3): the two float operations of the PTS helpers, `pts / 90e3` and `ts * 90e3`,
   are modelled as exact rational arithmetic followed by a rounding function `fl : Rat → Rat`.
-  The executable model instantiates `fl` with `F64.rne` (round to nearest binary64, ties to
-  even, on exact rationals); the driver exchanges floats as their 64-bit IEEE-754 image so the
-  correspondence check compares with CPython bit for bit.
+  The executable model instantiates `fl` with `Acra.Py.Float.rne` (round to nearest binary64,
+  ties to even, on exact rationals); the driver exchanges floats as their 64-bit IEEE-754 image so
+  the correspondence check compares with CPython bit for bit.
 -/
 import Acra.Py.Struct
+import Acra.Py.Float
 import Acra.Model.MPEGTS
 import Acra.Gen.PES
 namespace Acra.Model.PES
 open Acra.Py Acra.Gen.PES Acra.Model.MPEGTS
-
-/-! ### binary64 on exact rationals -/
-namespace F64
-
-/-- `num / den` rounded to the nearest integer, ties to even -/
-def rneDiv (num den : Nat) : Nat :=
-  let f := num / den
-  let r := num % den
-  if 2 * r < den then f else if den < 2 * r then f + 1 else f + f % 2
-
-/-- `n / d / 2^e` as a fraction of naturals -/
-def scaled (n d : Nat) (e : Int) : Nat × Nat :=
-  if 0 ≤ e then (n, d * 2 ^ e.toNat) else (n * 2 ^ (-e).toNat, d)
-
-/-- significand and exponent of the binary64 nearest to `n / d` (`n > 0`, `d > 0`):
-    the value is `m * 2^e` with `m < 2^53`, `e ≥ -1074`, and `m ≥ 2^52` unless subnormal -/
-def parts (n d : Nat) : Nat × Int :=
-  let e0 : Int := (Nat.log2 n : Int) - (Nat.log2 d : Int) - 52
-  let fl0 := (scaled n d e0).1 / (scaled n d e0).2
-  let e1 : Int := if 9007199254740992 ≤ fl0 then e0 + 1 else if fl0 < 4503599627370496 then e0 - 1 else e0
-  let e2 : Int := if e1 < -1074 then -1074 else e1
-  let m := rneDiv (scaled n d e2).1 (scaled n d e2).2
-  if m = 9007199254740992 then (4503599627370496, e2 + 1) else (m, e2)
-
-def pow2Rat (m : Nat) (e : Int) : Rat :=
-  if 0 ≤ e then ((m * 2 ^ e.toNat : Nat) : Rat) else mkRat m (2 ^ (-e).toNat)
-
-/-- round to nearest binary64, ties to even (no overflow to infinity: out of the modelled domain) -/
-def rne (q : Rat) : Rat :=
-  if q.num = 0 then 0 else
-  let p := parts q.num.natAbs q.den
-  if q.num < 0 then - pow2Rat p.1 p.2 else pow2Rat p.1 p.2
-
-/-- IEEE-754 image of a (representable, finite) value -/
-def toBits (q : Rat) : Nat :=
-  if q.num = 0 then 0 else
-  let p := parts q.num.natAbs q.den
-  let sign := if q.num < 0 then 9223372036854775808 else 0
-  let mag := if p.1 < 4503599627370496 then p.1
-             else (p.2 + 1075).toNat * 4503599627370496 + (p.1 - 4503599627370496)
-  sign + mag
-
-/-- value of a finite IEEE-754 image (`none` for infinities and NaN) -/
-def ofBits (b : Nat) : Option Rat :=
-  let neg := b / 9223372036854775808 % 2 = 1
-  let be := b / 4503599627370496 % 2048
-  let f := b % 4503599627370496
-  if be = 2047 then none else
-  let v := if be = 0 then pow2Rat f (-1074) else pow2Rat (4503599627370496 + f) ((be : Int) - 1075)
-  some (if neg then -v else v)
-
-/-- Python's `round(x)` for a float: nearest integer, ties to even, exact -/
-def roundHE (q : Rat) : Int :=
-  let f := q.floor
-  let r := q - (f : Rat)
-  if r < (1 : Rat) / 2 then f else if (1 : Rat) / 2 < r then f + 1 else if f % 2 = 0 then f else f + 1
-
-end F64
 
 /-! ### PTS helpers -/
 
@@ -83,11 +26,11 @@ def ptsOfField (v : Nat) : Nat :=
 def fieldOfPts (pts : Nat) : Nat :=
   0x2100010001 + (pts % 32768) * 2 + (pts / 32768 % 32768) * 131072 + (pts / 1073741824 % 8) * 8589934592
 
-/-- `pts_to_ts` for a rounding function `fl` -/
-def pts_to_ts (fl : Rat → Rat) (v : Nat) : Rat := fl ((ptsOfField v : Rat) / 90000)
+/-- `pts_to_ts` for a rounding function `fl`: `pts / 90e3` converts the int to a float, then divides -/
+def pts_to_ts (fl : Rat → Rat) (v : Nat) : Rat := fl (fl (ptsOfField v : Rat) / 90000)
 
-/-- `ts_to_pts` for a rounding function `fl` (non-negative `ts`) -/
-def ts_to_pts (fl : Rat → Rat) (ts : Rat) : Nat := fieldOfPts (F64.roundHE (fl (ts * 90000))).toNat
+/-- `ts_to_pts` for a rounding function `fl` (non-negative `ts`): `int(round(ts * 90e3))` -/
+def ts_to_pts (fl : Rat → Rat) (ts : Rat) : Nat := fieldOfPts (Float.roundNat (fl (ts * 90000)))
 
 /-- `ts_to_buf` -/
 def ts_to_buf (fl : Rat → Rat) (ts : Rat) : R Bytes :=
